@@ -424,7 +424,30 @@ fn closed_path(p: &P) -> P {
 fn odd_path(rng: &mut Rng) -> (P, &'static str) {
     let c = rand_centre(rng);
     let r = rng.r(8.0, 20.0);
-    match rng.i(6) {
+    match rng.i(8) {
+        6 => {
+            // ribbon: two ADJACENT curved edges that cross away from their shared vertex (a fish / looped ribbon), closed by a line
+            let (sx, sy) = (r / 4.0 * rng.r(0.8, 1.3), r / 4.0 * rng.r(0.8, 1.3));
+            let o = Coord2(c.0 - 4.0 * sx, c.1 - 4.0 * sy);
+            let q = |x: f64, y: f64| Coord2(o.0 + x * sx, o.1 + y * sy);
+            let p = BezierPathBuilder::<P>::start(q(0.0, 0.0))
+                .curve_to((q(6.0, 2.0), q(8.0, 6.0)), q(4.0, 8.0))
+                .curve_to((q(0.0, 6.0), q(2.0, 2.0)), q(8.0, 0.0))
+                .line_to(q(0.0, 0.0)).build();
+            (p, "ribbon_adjacent_edges_cross")
+        }
+        7 => {
+            // three-lobed polygon whose three concave vertices P, Q, R lie in a row with |PQ| and |QR| below the accuracy but |PR| above
+            // it, visited in the index order R .. Q .. P: combine_overlapping_points has to merge them as a chain
+            let (d1, d2) = (rng.r(0.0055, 0.0095), rng.r(0.0035, 0.0045));
+            let pp = c;
+            let qq = Coord2(c.0 + d1, c.1 - 0.0005);
+            let rr = Coord2(c.0 + d1 + d2, c.1);
+            let k = r / 5.0;
+            let pts = [rr, Coord2(c.0 + 3.0 * k, c.1 - 2.0 * k), Coord2(c.0 + 0.5 * k, c.1 - 4.0 * k), qq, Coord2(c.0 - 0.5 * k, c.1 - 4.0 * k),
+                       Coord2(c.0 - 3.0 * k, c.1 - 2.0 * k), pp, Coord2(c.0 - 3.0 * k, c.1 + 3.0 * k), Coord2(c.0 + 3.0 * k, c.1 + 3.0 * k)];
+            (polygon(&pts), "three_vertices_merge_as_chain")
+        }
         0 => {
             // bow tie: a polygon whose edges cross
             let pts = [Coord2(c.0 - r, c.1 - r), Coord2(c.0 + r, c.1 + r * rng.r(0.5, 1.0)), Coord2(c.0 + r, c.1 - r), Coord2(c.0 - r, c.1 + r)];
